@@ -178,6 +178,21 @@ func proposedTampers(p *pairfx.Pair, other *types.Block, foreign []*types.Transa
 		return false
 	})
 	add("tamper proposed ProposerPubKey garbage", func(b *types.Block) bool { ph(b).ProposerPubKey = flip(ph(b).ProposerPubKey); return true })
+	// both header variants present (the wire decoder keeps both): the block must not be judged by one part while the node
+	// stores / chains on the other
+	add("tamper proposed EmptyBlockHeader attach", func(b *types.Block) bool {
+		b.Header.EmptyBlockHeader = &types.EmptyBlockHeader{ParentHash: ph(b).ParentHash, Height: ph(b).Height, Root: flipHash(ph(b).Root),
+			IdentityRoot: ph(b).IdentityRoot, BlockSeed: ph(b).BlockSeed, Time: ph(b).Time, Flags: ph(b).Flags}
+		return true
+	})
+	add("tamper proposed EmptyBlockHeader attach-honest", func(b *types.Block) bool {
+		eb := p.B.Chain.GenerateEmptyBlock()
+		if eb == nil || eb.Header.EmptyBlockHeader == nil {
+			return false
+		}
+		b.Header.EmptyBlockHeader = eb.Header.EmptyBlockHeader
+		return true
+	})
 	// body edits, with (1) and without (0) recomputing the transaction commitment and body cid
 	for _, rec := range []int{0, 1} {
 		rec := rec
@@ -223,6 +238,18 @@ func proposedTampers(p *pairfx.Pair, other *types.Block, foreign []*types.Transa
 func emptyTampers(other *types.Block) []tamper {
 	eh := func(b *types.Block) *types.EmptyBlockHeader { return b.Header.EmptyBlockHeader }
 	return []tamper{
+		{"tamper empty ProposedHeader attach", func(b *types.Block) bool {
+			// an arbitrary proposed header next to the honest empty one (height and parent made to fit)
+			ph := &types.ProposedHeader{ParentHash: eh(b).ParentHash, Height: eh(b).Height, Time: eh(b).Time, Root: flipHash(eh(b).Root),
+				IdentityRoot: eh(b).IdentityRoot, BlockSeed: eh(b).BlockSeed, ProposerPubKey: []byte{4, 1, 2, 3}, TxHash: flipHash(eh(b).ParentHash)}
+			if other != nil && !other.IsEmpty() {
+				cp := *other.Header.ProposedHeader
+				cp.ParentHash, cp.Height = eh(b).ParentHash, eh(b).Height
+				ph = &cp
+			}
+			b.Header.ProposedHeader = ph
+			return true
+		}},
 		{"tamper empty ParentHash", func(b *types.Block) bool { eh(b).ParentHash = flipHash(eh(b).ParentHash); return true }},
 		{"tamper empty Height", func(b *types.Block) bool { eh(b).Height++; return true }},
 		{"tamper empty Root", func(b *types.Block) bool { eh(b).Root = flipHash(eh(b).Root); return true }},
